@@ -572,6 +572,8 @@ class Scanner:
         """the enclosing class (or free function) is referenced nowhere in src outside its own definition"""
         c = src.class_at(pos)
         f = src.func_at(pos)
+        if f and self.func_unreachable(f.name.split("::")[-1]):
+            return True
         if c:
             name, span = c[0], (c[1], c[3])
         elif f and "::" not in f.name:
@@ -587,6 +589,46 @@ class Scanner:
             return self._dead[ck]
         self._dead[ck] = self._dead_uncached(src, name, span)
         return self._dead[ck]
+
+    def func_unreachable(self, simple, _stack=None):
+        """every call site of (any function named) `simple` is compiled out in the default build or lies in a function
+        that is itself unreachable in this sense"""
+        if not hasattr(self, "_unreach"):
+            self._unreach = {}
+        if simple in self._unreach:
+            return self._unreach[simple]
+        if len(simple) < 4 or simple.startswith(("operator", "~")) or simple in ("main",) or simple not in self.func_index:
+            return False
+        if any(g.cls == simple or g.name.split("::")[-2:-1] == [simple] for g in self.func_index[simple]):
+            return False       # constructors are called implicitly
+        _stack = (_stack or ()) + (simple,)
+        rx = re.compile(r"(?<![\w~])" + re.escape(simple) + r"\s*\(")
+        sites = 0
+        for s in self.sources:
+            if simple not in s.bare:
+                continue
+            for m in rx.finditer(s.bare):
+                g = s.func_at(m.start())
+                if g is None:
+                    continue       # declaration in a class body / at file scope
+                if g.head <= m.start() < g.body_start and g.name.split("::")[-1] == simple:
+                    continue       # definition head
+                sites += 1
+                gs = s.guards_at(m.start())
+                if any((re.fullmatch(r"\w+", x) and x != HOOK_MACRO and self.is_off(x)) for x in gs):
+                    continue
+                gn = g.name.split("::")[-1]
+                if gn in _stack:
+                    continue
+                if self.func_unreachable(gn, _stack):
+                    continue
+                if len(_stack) == 1:
+                    self._unreach[simple] = False
+                return False
+        res = sites > 0
+        if len(_stack) == 1:
+            self._unreach[simple] = res
+        return res
 
     def _dead_uncached(self, src, name, span):
         rx = re.compile(r"\b" + re.escape(name) + r"\b")
@@ -861,14 +903,24 @@ class Scanner:
             if ty:
                 return ty
         # member / global: class body in any file
+        rx = re.compile(r"\b" + re.escape(name) + r"\s*(;|=\s*[^=]|\{|\[)")
+        ty_rx = re.compile(r"((?:const\s+)?(?:[A-Za-z_][\w:]*)(?:\s*<[^;{}()]*>)?\s*(?:const\s*)?[&*]*)\s*$")
         for s2 in [s] + [x for x in self.sources if x is not s]:
-            for m in re.finditer(r"((?:const\s+)?(?:[A-Za-z_][\w:]*)(?:\s*<[^;{}()]*?>)?\s*[&*]*)\s*\b" + re.escape(name) + r"\s*(;|=\s*[^=]|\{)", s2.bare):
+            if name not in s2.bare:
+                continue
+            for m in rx.finditer(s2.bare):
                 if s2.func_at(m.start()) is not None:
                     continue
-                first = re.match(r"(?:const\s+)?([A-Za-z_][\w:]*)", m.group(1)).group(1)
-                if first in ("return", "delete", "throw", "else", "case", "new", "using", "typedef", "namespace"):
+                pre = s2.bare[max(0, m.start() - 160):m.start()]
+                cut = max(pre.rfind(";"), pre.rfind("{"), pre.rfind("}"), pre.rfind(":") if not pre.rstrip().endswith("::") else -1)
+                pre = pre[cut + 1:]
+                mt = ty_rx.search(pre)
+                if not mt or not mt.group(1).strip():
                     continue
-                return m.group(1).strip()
+                first = re.match(r"(?:const\s+)?([A-Za-z_][\w:]*)", mt.group(1)).group(1)
+                if first in ("return", "delete", "throw", "else", "case", "new", "using", "typedef", "namespace", "public", "private", "protected"):
+                    continue
+                return mt.group(1).strip()
         return None
 
     def _class_of_var(self, s, f, name):
@@ -1117,6 +1169,22 @@ class Scanner:
         if re.fullmatch(r"\s*" + re.escape(stmt[rel:b - sa].strip()) + r"\s*;?\s*", stmt):
             self.use(s, a, ident, "ASinkNeutral", root, "value discarded; " + line)
             return True
+        # 0. argument of a function defined in src: the parameter is tainted (and the rules below still see the statement)
+        arg_done = False
+        call0 = self._enclosing_call(stmt, rel)
+        if call0:
+            fn0, argi0, _ = call0
+            simple0 = fn0.split("::")[-1].split(".")[-1].split("->")[-1]
+            if simple0 not in self.NEUTRAL_CALLS and simple0 not in self.DEST_FIRST and simple0 not in self.OUTPARAM_CALLS:
+                n0 = 0
+                for g in self.func_index.get(simple0, []):
+                    ps = self._params(g)
+                    if argi0 < len(ps) and ps[argi0]:
+                        self.taint_var(g.file, g, ps[argi0], root, g.head, param=True)
+                        n0 += 1
+                if n0:
+                    arg_done = True
+                    self.use(s, a, ident, "ASinkArg", root, "argument %d of %s; %s" % (argi0, simple0, line))
         # 1. output statements
         sink = None
         if self.STDERR_RX.search(stmt):
@@ -1147,6 +1215,12 @@ class Scanner:
             self.use(s, a, ident, "ASinkAssign", root, "-> %s; %s" % (v, line))
             if cmp_here:
                 self.use(s, a, ident + "?cmp", "ASinkCompare", root, line)
+            return True
+        # member initialiser in a constructor head:  , x(expr)
+        mi = re.search(r"[,:]\s*(" + IDENT + r")\s*[({]\s*$", head)
+        if mi and f is not None and f.head <= a < f.body_start:
+            self.taint_var(s, None, mi.group(1), root, a, qualifier=self.class_of(s, f, a))
+            self.use(s, a, ident, "ASinkAssign", root, "-> %s (member initialiser); %s" % (mi.group(1), line))
             return True
         # 4. argument of a call / constructor
         call = self._enclosing_call(stmt, rel)
@@ -1196,16 +1270,8 @@ class Scanner:
                 self.taint_var(s, f, simple, root, a)
                 self.use(s, a, ident, "ASinkAssign", root, "-> %s (constructed from it); %s" % (simple, line))
                 return True
-            if cands:
-                n = 0
-                for g in cands:
-                    ps = self._params(g)
-                    if argi < len(ps) and ps[argi]:
-                        self.taint_var(g.file, g, ps[argi], root, g.head, param=True)
-                        n += 1
-                if n:
-                    self.use(s, a, ident, "ASinkArg", root, "argument %d of %s; %s" % (argi, simple, line))
-                    return True
+            if arg_done:
+                return True
             if simple in self.tainted_classes or simple in ("TimeVal", "BTime"):
                 # temporary of a time class: treat as an expression, look at the enclosing statement again without it
                 pass
@@ -1223,12 +1289,6 @@ class Scanner:
         # 7. a declaration of an object of a tainting class:  StopWatch sw(timer)  handled by follow_class
         if re.match(r"\s*\(\s*void\s*\)", stmt):
             self.use(s, a, ident, "ASinkNeutral", root, line)
-            return True
-        # member initialiser in a constructor head:  , x(expr)
-        mi = re.search(r"[,:]\s*(" + IDENT + r")\s*[({]\s*$", head)
-        if mi:
-            self.taint_var(s, f, mi.group(1), root, a)
-            self.use(s, a, ident, "ASinkAssign", root, "-> %s (member initialiser); %s" % (mi.group(1), line))
             return True
         self.use(s, a, ident, "ASinkUnknown", root, line)
         return False
@@ -1384,11 +1444,13 @@ class Scanner:
                     continue
                 if g is not None and g.head <= m.start() < g.body_start and re.match(r"\s*[({]", after) and re.search(r"[:,]\s*$", before):
                     continue      # the member being initialised in a constructor head
+                if re.match(r"\s*(?:const\s+|static\s+)*(?:double|float|int|long|unsigned|bool|auto|size_t|u?int\d+_t|std::size_t)\b[^;()]*,\s*$", before) and re.match(r"\s*(=(?!=)|,|;)", after):
+                    continue      # another declarator of a declaration list  T a = 0, b = 0;
                 # the variable is being (re)defined here
-                if re.match(r"\s*(\[[^\]]*\]\s*)?(=(?!=)|\+=|-=|\*=|/=)", after) and not re.search(r"[=(,]$", before.rstrip()[-1:] or " "):
+                if re.match(r"\s*((\.|->)\s*\w+\s*|\[[^\]]*\]\s*)*(=(?!=)|\+=|-=|\*=|/=)", after) and not re.search(r"[=(,]$", before.rstrip()[-1:] or " "):
                     continue
                 # plain declarations:  T name;   T name[N];   T name(args);   T name{...};   T name = ...
-                if re.search(r"(?:^|[;{}(,]|\b(?:const|static|mutable|inline|struct))\s*(?:[A-Za-z_][\w:]*(?:\s*<[^;{}]*>)?)\s*(?:const\s*)?[&*]*\s*$", before) and \
+                if re.search(r"(?:^|[;{}(,:]|\b(?:const|static|mutable|inline|struct))\s*(?:[A-Za-z_][\w:]*(?:\s*<[^;{}]*>)?)\s*(?:const\s*)?[&*]*\s*$", before) and \
                         not re.search(r"\b(return|delete|throw|else|case|new|and|or|not)\s*$", before) and re.match(r"\s*(;|,|\)|\[|\(|\{|=(?!=))", after) and \
                         re.search(r"[A-Za-z_>&*]\s*$", before) and not re.search(r"[(,]\s*$", before):
                     continue
@@ -1519,13 +1581,13 @@ class Scanner:
                 if not ln or ln.startswith("#"):
                     continue
                 parts = [p.strip() for p in ln.split("|")]
-                if len(parts) != 4:
+                if len(parts) != 5:
                     raise TranslateError("allowlist line not understood: " + ln)
                 entries.append(parts)
         self.allow_used = {i: 0 for i in range(len(entries))}
         for f in self.facts:
-            for i, (kind, func, ident, why) in enumerate(entries):
-                if kind == f.kind and func == f.func and ident == f.ident:
+            for i, (kind, func, ident, attr, why) in enumerate(entries):
+                if kind == f.kind and func == f.func and ident == f.ident and attr in f.attrs:
                     f.attrs = sorted(set(f.attrs + ["AAllow"]))
                     f.note = ("ALLOWLIST: %s; " % why) + f.note
                     self.allow_used[i] += 1
@@ -1635,7 +1697,7 @@ def main():
         print(sc.stats)
         for i, n in sc.allow_used.items():
             if n == 0:
-                print("note: allowlist entry not matched by any fact:", " | ".join(sc.allow_entries[i][:3]))
+                print("note: allowlist entry not matched by any fact:", " | ".join(sc.allow_entries[i][:4]))
     return 0
 
 
